@@ -56,8 +56,8 @@ def auth_gen(rng, pairs):
     return ''.join(rng.choice(B64 + '= :') for _ in range(rng.randrange(0, 20)))
 
 
-def mk(pairs, auth, single=False):
-    return {'case': {'pairs': [[hx(u), hx(p)] for u, p in pairs], 'auth': hx(auth) if auth is not None else None, 'single': single}}
+def mk(pairs, auth, single=False, method='GET'):
+    return {'case': {'pairs': [[hx(u), hx(p)] for u, p in pairs], 'auth': hx(auth) if auth is not None else None, 'single': single, 'method': method}}
 
 
 def corpus():
@@ -74,7 +74,7 @@ def generate(rng, tier):
     for _ in range(n // 6):
         ps = pairs_gen(rng)
         for _ in range(6):
-            out.append(mk(ps, auth_gen(rng, ps), single=(len(ps) == 1 and rng.random() < 0.5)))
+            out.append(mk(ps, auth_gen(rng, ps), single=(len(ps) == 1 and rng.random() < 0.5), method=rng.choice(['GET', 'GET', 'GET', 'POST', 'PUT', 'PATCH', 'DELETE', 'HEAD', 'OPTIONS', 'OPTIONS'])))          # the guard stands before every method
     return out
 
 
@@ -89,6 +89,10 @@ def judge(case, out, m):
     v = []
     want = spec(case)
     if 'panic' in out: v.append(('violation', 'panic: ' + out['panic'][:120]))
+    elif case.get('method') == 'OPTIONS' and want['ran']:
+        # admitted: the automatic OPTIONS handler of the route answers, not the user's handler
+        if out.get('ran') or out.get('challenge') or out.get('status') == 401: v.append(('violation', f'OPTIONS with valid credentials: got {out}'))          # what the automatic handler answers is C14
+        return v
     elif out != want: v.append(('violation', f'got {out}, the property gives {want}'))
     if m is not None and m.get('model') != out: v.append(('disagree', f'impl {out} model {m.get("model")}'))
     return v
